@@ -180,6 +180,16 @@ pub fn gen_c11(rng: &mut Rng, thorough: bool) -> Vec<Tagged> {
         let (spec, input, _) = two_block_net(rng, r, 1);
         out.push(("two-blocks-fwd".into(), Case::Net(spec, NetCmd::Forward(rand_input(rng, input, 0)))));
     }
+    // blocks on flat tensors with more than 2^10 elements, skips with every accumulation
+    for acc in ALL_ACCS {
+        let nbig = 1100usize;
+        let mut spec = NetSpec::new(Sh::Flat(nbig).to_shape());
+        let ls = vec![Simple::Dense { out: 2, act: Act::Tanh, bias: true, dropout: None }, Simple::Dense { out: nbig, act: Act::Linear, bias: false, dropout: None }];
+        let bw = vec![rand_w(rng, &ls[0], Sh::Flat(nbig), 1), rand_w(rng, &ls[1], Sh::Flat(2), 1)];
+        spec.layers.push(LayerSpec::Block { layers: ls, loops: 3, inskips: true, outskips: true, acc });
+        spec.weights = Some(vec![LW::Block(bw)]);
+        out.push((format!("block-huge-flat-{:?}", acc), Case::Net(spec, NetCmd::Forward(rand_input(rng, Sh::Flat(nbig), 0)))));
+    }
     // blocks that contain a max-pool layer with a real window
     for r in 0..(if thorough { 48 } else { 12 }) {
         if let Some((spec, input, _)) = pool_block_net(rng, r, 1, false) {
@@ -467,6 +477,34 @@ pub fn gen_c17(rng: &mut Rng, thorough: bool) -> Vec<Tagged> {
         let x = rand_input(rng, input, 0);
         let tag = format!("loop-{:?}-k{}{}{}", spec.loopacc, k, if insk { "-inskips" } else { "" }, match r % 3 { 0 => "-dense", 1 => "-spatial", _ => "-flattenboundary" });
         out.push((tag, Case::Net(spec, NetCmd::Forward(x))));
+    }
+    // loops whose flat output has more than 2^10 elements (dense range 1100 -> 2 -> 1100, and a 1x36x36
+    // convolution flattened by the dense layer behind it), every accumulation
+    for (ai, acc) in ALL_ACCS.iter().enumerate() {
+        let nbig = 1100usize;
+        let mut spec = NetSpec::new(Sh::Flat(nbig).to_shape());
+        let d1 = Simple::Dense { out: 2, act: Act::Tanh, bias: true, dropout: None };
+        let d2 = Simple::Dense { out: nbig, act: Act::Linear, bias: false, dropout: None };
+        let ws = vec![LW::One(rand_w(rng, &d1, Sh::Flat(nbig), 1)), LW::One(rand_w(rng, &d2, Sh::Flat(2), 1))];
+        spec.layers.push(LayerSpec::One(d1));
+        spec.layers.push(LayerSpec::One(d2));
+        spec.weights = Some(ws);
+        spec.loopacc = *acc;
+        spec.loops = vec![(1, 0, 1 + ai % 2, ai % 2 == 1)];
+        out.push((format!("loop-{:?}-huge-flat", acc), Case::Net(spec, NetCmd::Forward(rand_input(rng, Sh::Flat(nbig), 0)))));
+        if thorough || ai == 4 || ai == 0 {
+            let input = Sh::Sp(1, 36, 36);
+            let mut spec = NetSpec::new(input.to_shape());
+            let c = Simple::Conv { filters: 1, kernel: (1, 1), stride: (1, 1), padding: (0, 0), dilation: (1, 1), act: Act::Tanh, dropout: None };
+            let d = Simple::Dense { out: 2, act: Act::Linear, bias: true, dropout: None };
+            let ws = vec![LW::One(rand_w(rng, &c, input, 1)), LW::One(rand_w(rng, &d, Sh::Flat(36 * 36), 1))];
+            spec.layers.push(LayerSpec::One(c));
+            spec.layers.push(LayerSpec::One(d));
+            spec.weights = Some(ws);
+            spec.loopacc = *acc;
+            spec.loops = vec![(0, 0, 2, false)];
+            out.push((format!("loop-{:?}-huge-flattenboundary", acc), Case::Net(spec, NetCmd::Forward(rand_input(rng, input, 0)))));
+        }
     }
     // builder validation
     for (outof, into) in [(0usize, 1usize), (5, 0), (1, 1), (2, 0)] {
@@ -888,6 +926,43 @@ pub fn gen_c12(rng: &mut Rng, thorough: bool) -> Vec<Tagged> {
         out.push(("predict-batch-skipnet".into(), Case::Net(spec.clone(), NetCmd::PredictBatch(data.iter().map(|d| d.0.clone()).collect()))));
         out.push(("predict-skipnet".into(), Case::Net(spec.clone(), NetCmd::Predict(data[0].0.clone()))));
         out.push(("forward-skipnet".into(), Case::Net(spec, NetCmd::Forward(data[0].0.clone()))));
+    }
+    // degenerate tolerances (zero, negative zero, negative, NaN, denormal, infinite) against predictions that
+    // hit, miss by one ulp, or miss their targets: "strictly within the given tolerance" for ALL tolerances
+    {
+        let n = 3usize;
+        let mut spec = NetSpec::new(Sh::Flat(n).to_shape());
+        let d = Simple::Dense { out: n, act: Act::Linear, bias: false, dropout: None };
+        let mut w = vec![0.0f32; n * n];
+        for i in 0..n {
+            w[i * n + i] = 1.0;
+        }
+        spec.layers.push(LayerSpec::One(d));
+        spec.weights = Some(vec![LW::One(W::Dense(t2(n, n, &w), None))]);
+        spec.obj = Obj::MSE;
+        // identity network: prediction = input
+        let xs: Vec<[f32; 3]> = vec![[0.0, 0.5, -1.0], [0.25, 0.25, 0.25], [1.0, 2.0, 3.0]];
+        let data: Vec<(Tensor, Tensor)> = xs.iter().enumerate().map(|(k, x)| {
+            let t: Vec<f32> = match k {
+                0 => x.to_vec(),                                                   // exact hits
+                1 => vec![x[0], f32::from_bits(x[1].to_bits() + 1), x[2] + 0.5],   // hit, one ulp off, off
+                _ => vec![x[0] + 1e-3, x[1], x[2] - 1e-3],
+            };
+            (t1(x.to_vec()), t1(t))
+        }).collect();
+        for tol in [0.0f32, -0.0, -1e-3, -1.0, f32::NAN, 1e-45, f32::MIN_POSITIVE, 1.1920929e-7, 1e-8, 1e-3, 1.0e-3 + 1e-9, f32::INFINITY, f32::NEG_INFINITY] {
+            out.push(("validate-degenerate-tolerance".into(), Case::Net(spec.clone(), NetCmd::Validate { data: data.clone(), tol, pre_training: false })));
+        }
+        // and on 70 samples of a zero input into a bias-free network (exact outputs 0 / 0.5)
+        let mut spec2 = NetSpec::new(Sh::Flat(2).to_shape());
+        let d2 = Simple::Dense { out: 2, act: Act::Sigmoid, bias: false, dropout: None };
+        spec2.weights = Some(vec![LW::One(rand_w(rng, &d2, Sh::Flat(2), 2))]);
+        spec2.layers.push(LayerSpec::One(d2));
+        spec2.obj = Obj::MAE;
+        let data2: Vec<(Tensor, Tensor)> = (0..70).map(|k| (t1(vec![0.0, 0.0]), t1(vec![0.5, if k % 2 == 0 { 0.5 } else { 0.75 }]))).collect();
+        for tol in [0.0f32, -0.0, -1.0, f32::NAN, 1e-8] {
+            out.push(("validate-degenerate-tolerance-70".into(), Case::Net(spec2.clone(), NetCmd::Validate { data: data2.clone(), tol, pre_training: false })));
+        }
     }
     // a network not ending in a dense layer is refused by validate
     let mut spec = NetSpec::new(Sh::Sp(1, 3, 3).to_shape());
